@@ -59,7 +59,7 @@ static void parse_spec(const char *spec)
 
 /* ---- header variants ---------------------------------------------------- */
 typedef struct { const char *json; int intended; } hvar_t;
-#define NHDR 45
+#define NHDR 50
 static hvar_t HV[NHDR];
 static char hv_store[15][16];
 static void init_hdr(void)
@@ -99,6 +99,12 @@ static void init_hdr(void)
 	HV[42] = (hvar_t){ "\"PS+0384\"", JWT_ALG_PS384 };
 	HV[43] = (hvar_t){ "\"EdDSA \"", JWT_ALG_EDDSA };
 	HV[44] = (hvar_t){ "\"HS256.0\"", JWT_ALG_HS256 };
+	/* an escaped NUL inside the name: read as a C string the name ends there */
+	HV[45] = (hvar_t){ "\"none\\u0000\"", JWT_ALG_NONE };
+	HV[46] = (hvar_t){ "\"none\\u0000HS256\"", JWT_ALG_NONE };
+	HV[47] = (hvar_t){ "\"HS256\\u0000none\"", JWT_ALG_HS256 };
+	HV[48] = (hvar_t){ "\"RS256\\u0000\"", JWT_ALG_RS256 };
+	HV[49] = (hvar_t){ "\"ES256\\u0000K\"", JWT_ALG_ES256 };
 }
 
 /* ---- keys ------------------------------------------------------------------ */
@@ -219,9 +225,10 @@ static const char *get_token(int ki, int h, int sk, int *refvalid)
 
 /* ---- callbacks ------------------------------------------------------------- */
 typedef struct { const jwk_item_t *key; int alg; int mode; int calls; int seen_alg; int seen_key; int warm_alg; long total; } cbctx_t;
+static cbctx_t *g_cx;	/* callbacks registered with a NULL context use this */
 static int the_cb(jwt_t *jwt, jwt_config_t *config)
 {
-	cbctx_t *c = config->ctx;
+	cbctx_t *c = config->ctx ? config->ctx : g_cx;
 	(void)jwt;
 	c->calls++;
 	c->seen_alg = (int)config->alg;
@@ -391,16 +398,16 @@ int main(int argc, char **argv)
 				setkey_rc = jwt_checker_setkey(chk, (jwt_alg_t)cfg, item);
 				if (!setkey_rc) { eff_alg = cfg; eff_key = item != NULL; }
 				break;
-			case 1: cx.mode = 1; jwt_checker_setcb(chk, the_cb, &cx); eff_alg = cfg; eff_key = item != NULL; break;
-			case 2: cx.mode = 2; jwt_checker_setcb(chk, the_cb, &cx); eff_alg = JWT_ALG_NONE; eff_key = item != NULL; break;
+			case 1: cx.mode = 1; (g_cx = &cx, jwt_checker_setcb(chk, the_cb, (idx & 1) ? &cx : NULL)); eff_alg = cfg; eff_key = item != NULL; break;
+			case 2: cx.mode = 2; (g_cx = &cx, jwt_checker_setcb(chk, the_cb, (idx & 1) ? &cx : NULL)); eff_alg = JWT_ALG_NONE; eff_key = item != NULL; break;
 			case 3:
 				setkey_rc = jwt_checker_setkey(chk, JWT_ALG_NONE, item);
-				cx.mode = 3; jwt_checker_setcb(chk, the_cb, &cx);
+				cx.mode = 3; (g_cx = &cx, jwt_checker_setcb(chk, the_cb, (idx & 1) ? &cx : NULL));
 				eff_alg = cfg; eff_key = (!setkey_rc && item != NULL);
 				break;
 			case 4:	/* setkey then a callback that changes nothing */
 				setkey_rc = jwt_checker_setkey(chk, (jwt_alg_t)cfg, item);
-				cx.mode = 0; jwt_checker_setcb(chk, the_cb, &cx);
+				cx.mode = 0; (g_cx = &cx, jwt_checker_setcb(chk, the_cb, (idx & 1) ? &cx : NULL));
 				if (!setkey_rc) { eff_alg = cfg; eff_key = item != NULL; }
 				break;
 			case 5: case 6: case 7:
@@ -409,7 +416,7 @@ int main(int argc, char **argv)
 			case 9: {	/* history on one checker: the callback supplies the same key with the key's natural alg once (a valid
 					 * token of that alg is verified), then with the cell's alg: what passed for one alg says nothing about another */
 				cx.mode = 4; cx.warm_alg = z->present ? natural_alg(&z->k) : JWT_ALG_NONE;
-				jwt_checker_setcb(chk, the_cb, &cx); eff_alg = cfg; eff_key = item != NULL;
+				(g_cx = &cx, jwt_checker_setcb(chk, the_cb, (idx & 1) ? &cx : NULL)); eff_alg = cfg; eff_key = item != NULL;
 				if (z->present) {
 					char wh[96], *wt;
 					snprintf(wh, sizeof(wh), "{\"alg\":\"%s\"}", vh_alg_name(cx.warm_alg));
@@ -425,7 +432,7 @@ int main(int argc, char **argv)
 				o = get_item(prov, other_ki, JWT_ALG_HS512, 0);
 				if (do_setkey(chk, 0, JWT_ALG_NONE, o)) vh_harness_fail("route 8 preset refused");
 				log_setkey(0, idx, prov, route, JWT_ALG_NONE, other_ki, JWT_ALG_HS512, 0, 0, chk);
-				cx.mode = 1; jwt_checker_setcb(chk, the_cb, &cx); eff_alg = cfg; eff_key = item != NULL;
+				cx.mode = 1; (g_cx = &cx, jwt_checker_setcb(chk, the_cb, (idx & 1) ? &cx : NULL)); eff_alg = cfg; eff_key = item != NULL;
 				break;
 			}
 			}
@@ -468,16 +475,16 @@ int main(int argc, char **argv)
 				setkey_rc = jwt_builder_setkey(b, (jwt_alg_t)cfg, item);
 				if (!setkey_rc) { eff_alg = cfg; eff_key = item != NULL; }
 				break;
-			case 1: cx.mode = 1; jwt_builder_setcb(b, the_cb, &cx); eff_alg = cfg; eff_key = item != NULL; break;
-			case 2: cx.mode = 2; jwt_builder_setcb(b, the_cb, &cx); eff_alg = JWT_ALG_NONE; eff_key = item != NULL; break;
+			case 1: cx.mode = 1; (g_cx = &cx, jwt_builder_setcb(b, the_cb, (idx & 1) ? &cx : NULL)); eff_alg = cfg; eff_key = item != NULL; break;
+			case 2: cx.mode = 2; (g_cx = &cx, jwt_builder_setcb(b, the_cb, (idx & 1) ? &cx : NULL)); eff_alg = JWT_ALG_NONE; eff_key = item != NULL; break;
 			case 3:
 				setkey_rc = jwt_builder_setkey(b, JWT_ALG_NONE, item);
-				cx.mode = 3; jwt_builder_setcb(b, the_cb, &cx);
+				cx.mode = 3; (g_cx = &cx, jwt_builder_setcb(b, the_cb, (idx & 1) ? &cx : NULL));
 				eff_alg = cfg; eff_key = (!setkey_rc && item != NULL);
 				break;
 			case 4:
 				setkey_rc = jwt_builder_setkey(b, (jwt_alg_t)cfg, item);
-				cx.mode = 0; jwt_builder_setcb(b, the_cb, &cx);
+				cx.mode = 0; (g_cx = &cx, jwt_builder_setcb(b, the_cb, (idx & 1) ? &cx : NULL));
 				if (!setkey_rc) { eff_alg = cfg; eff_key = item != NULL; }
 				break;
 			case 5: case 6: case 7:
@@ -486,7 +493,7 @@ int main(int argc, char **argv)
 			case 9: {
 				char *wt;
 				cx.mode = 4; cx.warm_alg = z->present ? natural_alg(&z->k) : JWT_ALG_NONE;
-				jwt_builder_setcb(b, the_cb, &cx); eff_alg = cfg; eff_key = item != NULL;
+				(g_cx = &cx, jwt_builder_setcb(b, the_cb, (idx & 1) ? &cx : NULL)); eff_alg = cfg; eff_key = item != NULL;
 				wt = jwt_builder_generate(b); free(wt);
 				jwt_builder_error_clear(b);
 				if (cx.total == 0) cx.total = 1;
@@ -498,7 +505,7 @@ int main(int argc, char **argv)
 				o = get_item(prov, other_ki, JWT_ALG_HS512, 0);
 				if (do_setkey(b, 1, JWT_ALG_NONE, o)) vh_harness_fail("route 8 preset refused");
 				log_setkey(1, idx, prov, route, JWT_ALG_NONE, other_ki, JWT_ALG_HS512, 0, 0, b);
-				cx.mode = 1; jwt_builder_setcb(b, the_cb, &cx); eff_alg = cfg; eff_key = item != NULL;
+				cx.mode = 1; (g_cx = &cx, jwt_builder_setcb(b, the_cb, (idx & 1) ? &cx : NULL)); eff_alg = cfg; eff_key = item != NULL;
 				break;
 			}
 			}
